@@ -102,3 +102,56 @@ def centers(sc, fit):
         xc, yc = impl.quiet(ve.calculate_circle_center, be.vertices, method=fit)
         out.append((float(xc), float(yc)))
     return out
+
+
+def build_series(case, nframes=2, times=None, disp=None, renumber=False):
+    """time series of one tissue: frame t is the tissue with junctions displaced by disp[t] (array over topo junctions,
+    complex, in the *mapped* coordinates' units before the similarity); interior points follow by re-sampling the
+    displaced ridges.  Returns list of StaticCase (one per frame) sharing topo/subset."""
+    base = build_static(case)
+    if base is None:
+        return None
+    out = []
+    for t in range(nframes):
+        c = dict(case)
+        sc = StaticCase()
+        rng = np.random.default_rng(case["seed"])     # same draws → same k per ridge, same params
+        topo = make_topo(rng, case)
+        sub = None
+        if case.get("subset"):
+            sub = gen.connected_subsets(topo, rng, max(3, int(round(topo.ncells() * case["subset"]))))
+        mob = gen.Mobius.random(rng, topo, strength=case.get("strength", 1.0)) if case.get("mobius") else None
+        sim = gen.Similarity(angle=case.get("angle", 0.0), scale=case.get("scale", 1.0), shift=complex(*case.get("shift", (0.0, 0.0))),
+                             reflect=case.get("reflect", False))
+        kmin, kmax = case.get("kmin", 1), case.get("kmax", 15)
+        ks = {}
+        def k_of(r, ks=ks, rng=rng):
+            if r not in ks:
+                ks[r] = int(rng.integers(kmin, kmax + 1))
+            return ks[r]
+        if disp is not None and disp[t] is not None:
+            topo = gen.Topo(topo.J + disp[t], topo.cells, topo.sites)
+        if renumber:
+            r2 = np.random.default_rng(case["seed"] + 1000 + t)
+            perm = r2.permutation(4000)
+            vmap = (lambda i, perm=perm: int(perm[i % 4000]) + 4000 * (i // 4000))
+        else:
+            vmap = None
+        bm = gen.build_mesh(topo, sub, rng=rng, param_mode="uniform", k_of_ridge=k_of, mobius=mob, sim=sim, vmap=vmap, center_method="mean")
+        sc.case, sc.topo, sc.sub, sc.mob, sc.sim, sc.bm, sc.rng = c, topo, sub, mob, sim, bm, rng
+        out.append(sc)
+    return out
+
+
+def make_forsys(series, times=None, cm=False, initial_guess=None):
+    frames = {}
+    for t, sc in enumerate(series):
+        sc.frame = impl.make_frame(sc.bm, frame_id=t, time=(times[t] if times else float(t)))
+        frames[t] = sc.frame
+    kw = {}
+    if initial_guess is not None:
+        kw["initial_guess"] = initial_guess
+    f = impl.quiet(fs.ForSys, frames, cm=cm, **kw)
+    for sc in series:
+        sc.forsys = f
+    return f
